@@ -34,7 +34,7 @@ package keeper
 // ---------------------------------------------------------------------------------------------
 // Store families of the coinswap module (key constructor -> abstract map)
 
-//@ family pools    key types.GetPoolKey value types.Pool
+//@ family pools    key types.GetPoolKey value types.Pool prefix const:pool
 //@ family lptIndex key types.GetLptDenomKey value str
 //@ family nextSeq  key const:nextPoolSequence value uint64
 //@ family prm      key const:params value types.Params
@@ -474,7 +474,7 @@ package keeper
 //@   property C16
 //@   returns err
 //@   modifies prm
-//@   ensures stored:   err == nil ==> has(prm) && get(prm) == params && paramsOK(params)
+//@   ensures stored:   err == nil ==> has(prm) && get(prm) == params && paramsOK(params) && prm == set(old(prm), params)
 //@   ensures rejected: err != nil ==> prm == old(prm)
 //@ end
 
@@ -485,4 +485,34 @@ package keeper
 //@   ensures authority: err == nil ==> msg.Authority == m.k.authority
 //@   ensures stored:    err == nil ==> has(prm) && get(prm) == msg.Params && paramsOK(msg.Params)
 //@   ensures rejected:  err != nil ==> prm == old(prm)
+//@ end
+
+// ---------------------------------------------------------------------------------------------
+// Genesis fixpoint (C12): importing what was just exported leaves the module's state as it was.
+// The composition is the hook function verifGenesisRoundTrip (build tag verif); ExportGenesis, GetAllPools and
+// InitGenesis are inlined into it, their loops carry the invariants below.
+
+// stored pools are filed under their own id and indexed by their liquidity-token denomination
+//@ define poolsWF = forall i:Str :: has(pools, i) ==> get(pools, i).Id == i && has(lptIndex, get(pools, i).LptDenom) && get(lptIndex, get(pools, i).LptDenom) == i
+
+//@ func Keeper.GetAllPools
+//@   inline
+//@   invariant #1 pos:    0 <= it_idx && it_idx <= it_n && len(l_pools) == it_idx
+//@   invariant #1 listed: forall j:Int :: 0 <= j && j < it_idx ==> has(pools, it_seq[j]) && l_pools[j] == get(pools, it_seq[j])
+//@   invariant #1 frame:  pools == old(pools) && lptIndex == old(lptIndex) && nextSeq == old(nextSeq) && stdDenom == old(stdDenom) && prm == old(prm)
+//@ end
+//@ func Keeper.ExportGenesis
+//@   inline
+//@ end
+//@ func Keeper.InitGenesis
+//@   inline
+//@   invariant #1 idx:   rangeindex >= 0 - 1 && rangeindex < len(genState.Pool)
+//@   invariant #1 same:  pools == old(pools) && lptIndex == old(lptIndex) && nextSeq == old(nextSeq) && stdDenom == old(stdDenom) && prm == old(prm)
+//@ end
+
+//@ func Keeper.verifGenesisRoundTrip
+//@   property C12
+//@   requires paramsStored && has(nextSeq) && has(stdDenom) && poolsWF
+//@   modifies pools, lptIndex, nextSeq, stdDenom, prm
+//@   ensures fixpoint: pools == old(pools) && lptIndex == old(lptIndex) && nextSeq == old(nextSeq) && stdDenom == old(stdDenom) && prm == old(prm)
 //@ end
